@@ -239,3 +239,217 @@ void vf_harness(void) { String* s; const char* b; int n; String_assign(s, b, n);
 )
 
 UNITS = [resize, append, assign]
+
+# ---------------------------------------------------------------------------------------------
+# integer <-> text.  Loops are bounded by the operand width (<= 10 / <= 19 digits) and are unwound completely
+# (unwinding assertions on), inputs range over the full 32/64-bit domain: complete proofs.
+NUM_CUTS = lambda: [
+    Cut('myatoi', S, r'^int myatoi\(const char\* s\)\s*$'),
+    Cut('myatol', S, r'^Long myatol\(const char\* s\)\s*$'),
+    Cut('myitoa', S, r'^int myitoa\(int x, char\* s\)\s*$'),
+    Cut('myltoa', S, r'^int myltoa\(Long x, char\* s\)\s*$'),
+]
+NUM_C = r'''
+int myatoi(const char* s) @@myatoi@@
+Long myatol(const char* s) @@myatol@@
+int myitoa(int x, char* s) @@myitoa@@
+int myltoa(Long x, char* s) @@myltoa@@
+'''
+CANON = r'''
+/* canonical decimal text: optional '-', then digits without a leading zero (except "0" itself) */
+#define CANON(p, n, neg) ((n) >= 1 && ((neg) ? ((p)[0] == '-' && (n) >= 2 && (p)[1] >= '1' && (p)[1] <= '9') \
+                                             : ((p)[0] >= '0' && (p)[0] <= '9' && ((n) == 1 || (p)[0] != '0'))))
+'''
+
+# (the harness owns the String object, so that it can look at the result after the call)
+ctor_int = Unit(
+    'String_ctor_int', 'C03',
+    cuts=string_helper_cuts() + NUM_CUTS() + [Cut('ctor_int', S, r'^String::String\(int x\)\s*$', **SM)],
+    text=PRE + STRING_HELPERS_C + NUM_C + CANON + r'''
+void String_ctor_int(String* self, int x)
+__CPROVER_ensures(self->_len >= 1 && self->_len <= 11)
+__CPROVER_ensures((self->_size == 0 && self->_len < ASL_STR_SPACE) || self->_size > self->_len)
+__CPROVER_ensures(STRP(self)[self->_len] == 0)
+__CPROVER_ensures(CANON(STRP(self), self->_len, x < 0))
+__CPROVER_ensures(g_k >= (x < 0 ? 1 : 0) && g_k < self->_len ==> (STRP(self)[g_k] >= '0' && STRP(self)[g_k] <= '9'))
+__CPROVER_assigns(*self)
+@@ctor_int@@
+void vf_harness(void) {
+  String s; int x; __CPROVER_assume(0 <= g_k && g_k < 16);
+  String_ctor_int(&s, x);
+  VF_CANARY();
+}
+''',
+    entry='String_ctor_int', unwind=13, timeout=300,
+    desc='String(int): canonical decimal text (sign, no leading zero, digits only, <= 11 chars) within capacity for all 2^32 values; the value round trip is NOT decided (SAT does not finish on the divide/multiply chain)',
+    functions=['String::String(int)', 'myitoa'],
+    planted=[('ctor_int', r'String_alloc\(self, 11\)', 'String_alloc(self, 9)')],
+)
+
+ctor_long = Unit(
+    'String_ctor_Long', 'C03',
+    cuts=string_helper_cuts() + NUM_CUTS() + [Cut('ctor_long', S, r'^String::String\(Long x\)\s*$', **SM)],
+    text=PRE + STRING_HELPERS_C + NUM_C + CANON + r'''
+void String_ctor_Long(String* self, Long x)
+__CPROVER_ensures(self->_len >= 1 && self->_len <= 20)
+__CPROVER_ensures((self->_size == 0 && self->_len < ASL_STR_SPACE) || self->_size > self->_len)
+__CPROVER_ensures(STRP(self)[self->_len] == 0)
+__CPROVER_ensures(CANON(STRP(self), self->_len, x < 0))
+__CPROVER_ensures(g_k >= (x < 0 ? 1 : 0) && g_k < self->_len ==> (STRP(self)[g_k] >= '0' && STRP(self)[g_k] <= '9'))
+__CPROVER_assigns(*self)
+@@ctor_long@@
+void vf_harness(void) {
+  String s; Long x; __CPROVER_assume(0 <= g_k && g_k < 21);
+  String_ctor_Long(&s, x);
+  VF_CANARY();
+}
+''',
+    entry='String_ctor_Long', unwind=22, timeout=400,
+    desc='String(Long): canonical decimal text within the capacity chosen by the constructor, for all 2^64 values',
+    functions=['String::String(Long)', 'myltoa'],
+)
+UNITS += [ctor_int, ctor_long]
+
+# ---------------------------------------------------------------------------------------------
+# constructors and pure functions returning a String (return by value)
+WF_SELF_RO = r'''
+__CPROVER_requires(__CPROVER_is_fresh(self, sizeof(String)))
+__CPROVER_requires(WF_STRING_P(self) && STRP(self)[self->_len] == 0 && self->_size <= NMAX)
+'''
+RET = '__CPROVER_return_value'
+RET_WF = r'''
+__CPROVER_ensures((RET._size == 0 && RET._len < ASL_STR_SPACE) || RET._size > RET._len)
+__CPROVER_ensures(RET._len >= 0 && STR(RET)[RET._len] == 0)
+'''.replace('RET', RET)
+
+
+def local_string_rules(text):
+    """String s(a, b);  ->  String s; String_ctor_cap_n(&s, a, b);   and s.str() is handled by method rules"""
+    import re
+    return re.subn(r'\bString (\w+)\(([^;]*)\);', r'String \1; String_ctor_cap_n(&\1, \2);', text)
+
+
+substring = Unit(
+    'String_substring', 'C03',
+    cuts=string_helper_cuts() + [Cut('substring', S, r'^String String::substring\(int i, int j\) const\s*$', **SM, rules=[local_string_rules])],
+    text=PRE + STRING_HELPERS_C + r'''
+String String_substring(String* self, int i, int j)
+''' + WF_SELF_RO + r'''
+__CPROVER_requires(0 <= i && i <= j && j <= self->_len)
+__CPROVER_requires(0 <= g_k && g_k < j - i)
+__CPROVER_ensures(RET._len == j - i)
+'''.replace('RET', RET) + RET_WF + r'''
+__CPROVER_ensures(STR(RET)[g_k] == STRP(self)[i + g_k])
+__CPROVER_assigns()
+'''.replace('RET', RET) + r'''@@substring@@
+void vf_harness(void) { String* s; int i, j; String r = String_substring(s, i, j); VF_CANARY(); }
+''',
+    entry='String_substring', variants={'': [NMAX]},
+    desc='substring(i,j), 0<=i<=j<=length: result is bytes [i,j), well-formed, NUL-terminated; source untouched',
+    functions=['String::substring'],
+)
+
+substr = Unit(
+    'String_substr', 'C03',
+    cuts=string_helper_cuts() + [Cut('substr', S, r'^String String::substr\(int i, int n\) const\s*$', **SM, rules=[local_string_rules])],
+    text=PRE + STRING_HELPERS_C + r'''
+/* byte-string model of substr(i, n): negative i counts from the end; the range is clipped to the string */
+#define SS_I0(len, i) ((i) < 0 ? (i) + (len) : (i))
+#define SS_I(len, i)  (SS_I0(len, i) >= (len) ? (len) : SS_I0(len, i))
+#define SS_J(len, i, n) (SS_I(len, i) + (n) > (len) ? (len) : SS_I(len, i) + (n))
+String String_substr(String* self, int i, int n)
+''' + WF_SELF_RO + r'''
+__CPROVER_requires(-self->_len <= i && i <= NMAX && 0 <= n && n <= NMAX)
+__CPROVER_requires(0 <= g_k && g_k < SS_J(self->_len, i, n) - SS_I(self->_len, i))
+__CPROVER_ensures(RET._len == SS_J(self->_len, i, n) - SS_I(self->_len, i))
+'''.replace('RET', RET) + RET_WF + r'''
+__CPROVER_ensures(STR(RET)[g_k] == STRP(self)[SS_I(self->_len, i) + g_k])
+__CPROVER_assigns()
+'''.replace('RET', RET) + r'''@@substr@@
+void vf_harness(void) { String* s; int i, n; String r = String_substr(s, i, n); VF_CANARY(); }
+''',
+    entry='String_substr', variants={'': [NMAX]},
+    desc='substr(i,n) for every i >= -length and n >= 0: clipped range, content, well-formedness',
+    functions=['String::substr'],
+)
+
+concat = Unit(
+    'String_concat', 'C03',
+    cuts=string_helper_cuts() + [Cut('concat', S, r'^String String::concat\(const char\* b, int n\) const\s*$', **SM, rules=[local_string_rules])],
+    text=PRE + STRING_HELPERS_C + r'''
+String String_concat(String* self, const char* b, int n)
+''' + WF_SELF_RO + r'''
+__CPROVER_requires(0 <= n && n <= NMAX && __CPROVER_is_fresh(b, n > 0 ? n : 1))
+__CPROVER_requires(0 <= g_k && g_k < self->_len + n)
+__CPROVER_ensures(RET._len == self->_len + n)
+'''.replace('RET', RET) + RET_WF + r'''
+__CPROVER_ensures(STR(RET)[g_k] == (g_k < self->_len ? STRP(self)[g_k < self->_len ? g_k : 0] : b[g_k < self->_len ? 0 : g_k - self->_len]))
+__CPROVER_assigns()
+'''.replace('RET', RET) + r'''@@concat@@
+void vf_harness(void) { String* s; const char* b; int n; String r = String_concat(s, b, n); VF_CANARY(); }
+''',
+    entry='String_concat', variants={'': [NMAX]},
+    desc='concat(b,n) (operator+): result = this ++ b, well-formed; operands untouched',
+    functions=['String::concat'],
+)
+
+ctor_txt_n = Unit(
+    'String_ctor_txt_n', 'C03',
+    cuts=string_helper_cuts() + [Cut('ctor', H, r'^\tASL_EXPLICIT String\(const char\* txt, int n\)\s*$', **SM)],
+    text=PRE + STRING_HELPERS_C + r'''
+void String_ctor_txt_n(String* self, const char* txt, int n)
+__CPROVER_requires(__CPROVER_is_fresh(self, sizeof(String)))
+__CPROVER_requires(0 <= n && n <= NMAX && __CPROVER_is_fresh(txt, n > 0 ? n : 1))
+__CPROVER_requires(0 <= g_k && g_k < n)
+__CPROVER_ensures(self->_len == n && ((self->_size == 0 && n < ASL_STR_SPACE) || self->_size > n))
+__CPROVER_ensures(STRP(self)[n] == 0 && STRP(self)[g_k] == txt[g_k])
+__CPROVER_assigns(*self)
+@@ctor@@
+void vf_harness(void) { String* s; const char* t; int n; String_ctor_txt_n(s, t, n); VF_CANARY(); }
+''',
+    entry='String_ctor_txt_n', variants={'': [NMAX]},
+    desc='String(const char*, int n): copies exactly n bytes, NUL-terminates, capacity > n',
+    functions=['String::String(const char*,int)', 'String::alloc', 'String::init'],
+)
+
+ctor_copy = Unit(
+    'String_ctor_copy', 'C03',
+    cuts=string_helper_cuts() + [Cut('ctor', H, r'^\tString\(const String& s\)\s*$', **SM,
+                                     post=[(r'String_str\(&s\)', 'String_str(s_p)', None), (r'\bs\._len', 's_p->_len', None)])],
+    text=PRE + STRING_HELPERS_C + r'''
+void String_ctor_copy(String* self, String* s_p)
+__CPROVER_requires(__CPROVER_is_fresh(self, sizeof(String)) && __CPROVER_is_fresh(s_p, sizeof(String)))
+__CPROVER_requires(WF_STRING_P(s_p) && STRP(s_p)[s_p->_len] == 0 && s_p->_size <= NMAX)
+__CPROVER_requires(0 <= g_k && g_k <= s_p->_len)
+__CPROVER_ensures(self->_len == s_p->_len && ((self->_size == 0 && self->_len < ASL_STR_SPACE) || self->_size > self->_len))
+__CPROVER_ensures(STRP(self)[g_k] == STRP(s_p)[g_k])
+__CPROVER_ensures(self->_size != 0 ==> self->_str != s_p->_str)
+__CPROVER_assigns(*self)
+@@ctor@@
+void vf_harness(void) { String* s; String* t; String_ctor_copy(s, t); VF_CANARY(); }
+''',
+    entry='String_ctor_copy', variants={'': [NMAX]},
+    desc='copy constructor: deep copy with its own buffer, same bytes including the NUL',
+    functions=['String::String(const String&)'],
+)
+
+append_char = Unit(
+    'String_append_char', 'C03',
+    cuts=helper_cuts() + [Cut('opc', H, r'^\tString& operator\+=\(char b\)', **SM, rules=RET_THIS, post=DEFARG_RULES)],
+    text=PRE + HELPERS + r'''
+void String_append_char(String* self, char b)
+__CPROVER_requires(__CPROVER_is_fresh(self, sizeof(String)))
+__CPROVER_requires(WF_STRING_P(self) && STRP(self)[self->_len] == 0 && self->_size <= NMAX && self->_len < NMAX)
+__CPROVER_requires(0 <= g_k && g_k <= self->_len)
+__CPROVER_ensures(self->_len == __CPROVER_old(self->_len) + 1)
+__CPROVER_ensures((self->_size == 0 && self->_len < ASL_STR_SPACE) || self->_size > self->_len)
+__CPROVER_ensures(STRP(self)[self->_len] == 0)
+__CPROVER_ensures(STRP(self)[g_k] == (g_k < __CPROVER_old(self->_len) ? __CPROVER_old(STRP(self)[g_k]) : b))
+''' + FRAME + r'''@@opc@@
+void vf_harness(void) { String* s; char b; String_append_char(s, b); VF_CANARY(); }
+''',
+    entry='String_append_char', variants={'': [NMAX]},
+    desc='operator+=(char) / operator<<(char): appends one byte, keeps the rest, NUL-terminated, grows when needed',
+    functions=['String::operator+=(char)', 'String::resize'],
+)
+UNITS += [substring, substr, concat, ctor_txt_n, ctor_copy, append_char]
